@@ -182,7 +182,7 @@ class SameOrderLemma(Contract):
     """Two ordered dicts with the same key sequence have the same members at the same positions."""
 
     targets = ()
-    prop = ("C02",)
+    prop = ("C02", "C01")  # (C01: cited by __update_normalization_vars@lnk, contracts/c02_more.py)
     lemma = True
 
     def lemmas(self):
